@@ -200,6 +200,17 @@ func compareUF(f *uf.UnknownField, id int16, want *ref.Value, checkID bool, path
 	return nil
 }
 
+// appendEverywhere appends one element to every container slice of the tree (the results are dropped: only a
+// write into spare capacity shared with another slice can have an effect).
+func appendEverywhere(xs []uf.UnknownField) {
+	for i := range xs {
+		if sub, ok := xs[i].Value.([]uf.UnknownField); ok {
+			appendEverywhere(sub)
+			_ = append(sub, uf.UnknownField{ID: 31000, Type: ref.I64, Value: int64(-1)})
+		}
+	}
+}
+
 // buildUF builds a tree in the normal form from a reference value.
 func buildUF(id int16, v *ref.Value) uf.UnknownField {
 	f := uf.UnknownField{ID: id, Type: v.T}
@@ -334,6 +345,16 @@ func checkUnknownFields(c UFCase, cv *cov) (v *evid.Violation) {
 		}
 		for i := range tree {
 			if v = compareUF(&tree[i], fields[i].ID, &fields[i].V, true, fmt.Sprintf("field[%d] (re-checked after later conversions)", i)); v != nil {
+				v.Msg += "; input " + hx(data)
+				return
+			}
+		}
+		// the tree belongs to the caller: appending to any of its slices (which writes into spare capacity, if the
+		// slice was handed out with any) must not change any other part of the tree
+		appendEverywhere(tree)
+		_ = append(tree, uf.UnknownField{ID: 32000, Type: ref.BYTE, Value: int8(1)})
+		for i := range tree {
+			if v = compareUF(&tree[i], fields[i].ID, &fields[i].V, true, fmt.Sprintf("field[%d] (re-checked after one element was appended to every container of the tree)", i)); v != nil {
 				v.Msg += "; input " + hx(data)
 				return
 			}
